@@ -407,6 +407,8 @@ PARSER_THEOREMS = {'parser_step_eq'}
 
 PRINTER_THEOREMS = {'printer_str_eq'}
 
+IO_THEOREMS = {'io_files_eq'}
+
 MISC_THEOREMS = {'misc_mvarray_folds_eq', 'misc_blademap_eq', 'misc_frame_eq'}
 
 QUAT_THEOREMS = {'quat_q2m_eq', 'quat_m2q_eq', 'quat_rotor_eq'}
@@ -427,6 +429,7 @@ TRANSLATORS = [   # (script, theorems it generates (None = everything else), mod
     ('series2lean.py', SERIES_THEOREMS, ['Model']),
     ('parser2lean.py', PARSER_THEOREMS, ['Model']),
     ('printer2lean.py', PRINTER_THEOREMS, ['Model']),
+    ('io2lean.py', IO_THEOREMS, ['Model']),
     ('misc2lean.py', MISC_THEOREMS, ['Model', 'Proofs.BladeMapP', 'Proofs.Recip']),
     ('shipped2lean.py', SHIP_THEOREMS, ['Proofs.Shipped']),
     ('quat2lean.py', QUAT_THEOREMS, ['Proofs.Quat']),
